@@ -760,7 +760,7 @@ func (e *Exec) applyPure(fv *FuncVal, args []Val) Val {
 	}
 	ms := e.P.FuncModset(fv.Fn)
 	for n := range ms {
-		if n != "next" {
+		if n != "next" && !strings.HasPrefix(n, "alloc:") {
 			unsupported("closure %s passed to a library function writes %s", fv.Fn, n)
 		}
 	}
